@@ -13,6 +13,8 @@ func checkC08(p *Prog, r *Report) {
 	r.Rule("R2", "the duplicate scan that decides the insertion and the insertion share one critical section; the scan is present")
 	absenceThenInsert(p, ls, r, "R2", F("SubscriptionManager.subscriptionEntries"), true, 1)
 	r.Rule("R3", "RemoveSubscription keeps an entry ⇔ ¬(client device ∧ entity ∧ feature ∧ server feature equal); the per-entity removal keeps ⇔ ¬(client device ∧ client entity equal)")
+	r.Rule("R7", "every read-modify-write of the subscription list (rebuild on removal, append on insertion) reads and stores inside one critical section")
+	rebuildAtomic(p, ls, r, "R7", F("SubscriptionManager.subscriptionEntries"), 3)
 	applyRetain(p, r, "R3", "spine", "SubscriptionManager", "RemoveSubscription", retainSpec{Field: F("SubscriptionManager.subscriptionEntries"),
 		Required: map[string]string{"client.device": "ClientFeature.Address().Device", "client.entity": "ClientFeature.Address().Entity", "client.feature": "ClientFeature.Address().Feature", "server.feature": "=ServerFeature"}})
 	applyRetain(p, r, "R3", "spine", "SubscriptionManager", "RemoveSubscriptionsForEntity", retainSpec{Field: F("SubscriptionManager.subscriptionEntries"),
